@@ -217,25 +217,10 @@ let c19tls line =
 let n_of_int n = if n = 0 then N0 else Npos (pos_of_int n)
 let int_of_n = function N0 -> 0 | Npos p -> int_of_pos p
 
-(* native-tls acceptor: `timeout(dur, accept(io))` is created inside the async block, i.e. at the FIRST POLL of the future, not in
-   call(): the deadline is first-poll time + handshake_timeout.  Encoded exactly by giving the model's Call the timeout
-   (time between call and first poll) + handshake_timeout; a future that is never polled never times out. *)
-let native_shift (ops : string list) (i : int) (k : int) : int =
-  let rec go j acc = function
-    | [] -> 1_000_000_000
-    | tok :: rest ->
-      if j <= i then go (j + 1) acc rest
-      else begin
-        let kind = tok.[0] and arg = String.sub tok 1 (String.length tok - 1) in
-        let n = try int_of_string arg with _ -> 0 in
-        if kind = 'P' && n = k then acc
-        else if kind = 'A' then go (j + 1) (acc + n) rest
-        else go (j + 1) acc rest
-      end in
-  go 0 0 ops
-
-let c18 line =
-  let lim = int_of_string (field_d line "lim" "1") in
+(* native-tls acceptor: its two differences from the AcceptFut back-ends (deadline armed at the first poll; slot released inside
+   the completing poll) are part of the Gallina model — Model/TlsAccept.v, Section Native: [shift_calls], [native_step] —
+   and proved to mean just that in Proofs/TlsNativeFacts.v.  This driver only says which futures are native-tls ones. *)
+let c18_parse line =
   let tr = int_of_string (field_d line "tr" "3000") and to_ = int_of_string (field_d line "to" "3000") in
   let conns = Array.of_list (split ',' (field_d line "conns" "")) in
   let oracle = split ',' (field_d line "oracle" "") in
@@ -245,35 +230,31 @@ let c18 line =
     | None -> []
     | Some e -> List.map (function 'P' -> HPending | 'D' -> HDone | 'F' -> HFailed N0 | _ -> HFailed (n_of_int 99))
                   (chars (after key e)) in
-  let ops = split '.' (field_d line "ops" "") in
   let native = field_d line "ov" "o" = "n" in
-  let st = ref (init (n_of_int lim)) in
-  let out = ref [] in
-  List.iteri (fun idx tok ->
+  let is_native id = let k = int_of_nat id in native && k < Array.length conns && conns.(k).[0] = 'o' in
+  let toks = List.mapi (fun idx tok ->
       let kind = tok.[0] and arg = String.sub tok 1 (String.length tok - 1) in
       let k = try int_of_string arg with _ -> 0 in
       let mop = match kind with
         | 'R' -> Some (PollReady (nat_of_int idx))
-        | 'C' -> Some (Call (nat_of_int k, script k,
-                             n_of_int (if conns.(k).[0] = 'r' then tr
-                                       else if native then to_ + native_shift ops idx k else to_)))
+        | 'C' -> Some (Call (nat_of_int k, script k, n_of_int (if conns.(k).[0] = 'r' then tr else to_)))
         | 'P' -> Some (PollFut (nat_of_int k, nat_of_int idx))
         | 'D' -> Some (DropFut (nat_of_int k))
         | 'A' -> Some (Advance (n_of_int k))
         | _ -> None in
-      match mop with
-      | None -> ()
-      | Some o ->
-        let (s', obs) = step !st o in
+      (kind, arg, k, mop)) (split '.' (field_d line "ops" "")) in
+  let toks = List.filter (fun (_, _, _, m) -> m <> None) toks in
+  let mops = shift_calls is_native (List.filter_map (fun (_, _, _, m) -> m) toks) in
+  (is_native, List.map2 (fun (kind, arg, k, _) o -> (kind, arg, k, o)) toks mops)
+
+let c18 line =
+  let lim = int_of_string (field_d line "lim" "1") in
+  let (is_native, toks) = c18_parse line in
+  let st = ref (init (n_of_int lim)) in
+  let out = ref [] in
+  List.iter (fun (kind, arg, k, o) ->
+        let (s', obs) = native_step is_native !st o in
         st := s';
-        (* native-tls acceptor (ov=n plays the "o" service): its future is an async block whose CounterGuard is a local, released
-           when the block finishes, i.e. inside the poll that returns Ready — the same as AcceptFut::poll followed at once by
-           drop(AcceptFut); a later drop of the finished future changes nothing (DropFut of an unknown id) *)
-        let obs = match o with
-          | PollFut (id, _) when native && conns.(k).[0] = 'o'
-                                 && List.exists (function ObsPoll (_, Ready _) -> true | _ -> false) obs ->
-            let (s2, obs2) = step !st (DropFut id) in st := s2; obs @ obs2
-          | _ -> obs in
         let wakes = List.sort compare (List.filter_map (function ObsWake w -> Some (int_of_nat w) | _ -> None) obs) in
         let wakes = List.sort_uniq compare wakes in
         let misuse = List.exists (function ObsMisuse _ -> true | _ -> false) obs in
@@ -296,43 +277,21 @@ let c18 line =
           | _ -> Printf.sprintf "A%d" k in
         let body = if wakes = [] then body
           else body ^ "+" ^ String.concat "," (List.map (fun w -> Printf.sprintf "w%d" w) wakes) in
-        out := body :: !out) ops;
+        out := body :: !out) toks;
   String.concat " " (List.rev !out)
 
 (* c18coq: the same case as a Gallina equation `run_from L ops = obs` (guards extraction and this driver's parser) *)
 let c18coq line =
   let lim = int_of_string (field_d line "lim" "1") in
-  let tr = int_of_string (field_d line "tr" "3000") and to_ = int_of_string (field_d line "to" "3000") in
-  let conns = Array.of_list (split ',' (field_d line "conns" "")) in
-  let oracle = split ',' (field_d line "oracle" "") in
-  let script k =
-    let key = Printf.sprintf "hs%d=" k in
-    match List.find_opt (starts_with key) oracle with
-    | None -> []
-    | Some e -> List.map (function 'P' -> HPending | 'D' -> HDone | 'F' -> HFailed N0 | _ -> HFailed (n_of_int 99))
-                  (chars (after key e)) in
-  let native = field_d line "ov" "o" = "n" in
-  let optoks = split '.' (field_d line "ops" "") in
+  let (is_native, toks) = c18_parse line in
+  (* the executed script: a completing poll of a native-tls future is followed by its DropFut (Model: native_expand) *)
   let cst = ref (init (n_of_int lim)) in
-  let ops = List.concat (List.mapi (fun idx tok ->
-      let kind = tok.[0] and arg = String.sub tok 1 (String.length tok - 1) in
-      let k = try int_of_string arg with _ -> 0 in
-      let l = match kind with
-      | 'R' -> [PollReady (nat_of_int idx)]
-      | 'C' -> [Call (nat_of_int k, script k,
-                      n_of_int (if conns.(k).[0] = 'r' then tr
-                                else if native then to_ + native_shift optoks idx k else to_))]
-      | 'P' -> [PollFut (nat_of_int k, nat_of_int idx)]
-      | 'D' -> [DropFut (nat_of_int k)]
-      | 'A' -> [Advance (n_of_int k)]
-      | _ -> [] in
-      List.concat_map (fun o ->
-        let (s', obs) = step !cst o in cst := s';
-        match o with
-        | PollFut (id, _) when native && conns.(k).[0] = 'o'
-                               && List.exists (function ObsPoll (_, Ready _) -> true | _ -> false) obs ->
-          let (s2, _) = step !cst (DropFut id) in cst := s2; [o; DropFut id]
-        | _ -> [o]) l) (split '.' (field_d line "ops" ""))) in
+  let ops = List.concat_map (fun (_, _, _, o) ->
+      let (s1, obs) = step !cst o in
+      match o with
+      | PollFut (id, _) when is_native id && List.exists (function ObsPoll (_, Ready _) -> true | _ -> false) obs ->
+        cst := fst (step s1 (DropFut id)); [o; DropFut id]
+      | _ -> cst := s1; [o]) toks in
   let nat n = Printf.sprintf "%d%%nat" (int_of_nat n) and nn n = Printf.sprintf "%d%%N" (int_of_n n) in
   let ans = function HPending -> "HPending" | HDone -> "HDone" | HFailed e -> Printf.sprintf "(HFailed %s)" (nn e) in
   let lst f l = "[" ^ String.concat "; " (List.map f l) ^ "]" in
